@@ -91,4 +91,9 @@ theorem decode_bounded (sd : Serde) (hs : sd.Lawful) (c : Cfg) (b r : Bytes) (s 
 /-- non-vacuity: the example image truncated after 40 of its 56 bytes is rejected -/
 example : decode (Serde.fixed 8) docCfg ((encode (Serde.fixed 8) docCfg exImage).take 40) = none := by decide
 
+/-- prefix rejection at the constants of the current headers (what `./check c11_quant` compares the real readers with) -/
+theorem prefix_rejected_code (sd : Serde) (hs : sd.Lawful) (s : Image) (hw : WF sd codeCfg s = true)
+    (n : Nat) (hn : n < (encode sd codeCfg s).length) : decode sd codeCfg ((encode sd codeCfg s).take n) = none :=
+  prefix_rejected sd hs codeCfg codeCfg_ok s hw n hn
+
 end DS.Wire.Quantiles
